@@ -34,6 +34,14 @@ func runC07(c *Ctx) {
 		c.R.Floor("C07.errors", cfg.Name, n, 190)
 		ruleReadFull(c, p, "C07.readfull")
 	}
+	// consumption: the decoders consume everything the encoders emit (C17 / C01 containments, shared)
+	if p := c.Prog(core.CfgDefault); p != nil {
+		c.R.Rule("C07.consume", "E2 containment (as C17.shape / C01.shape): for every message and every column type the encoder's atom sequences are contained in what the decoder's success paths consume, at every revision, with every gate evaluated on the codec's own revision parameter - a decoder that stops early (or skips fields the encoder wrote) accepts a truncated encoding")
+		pairs := messagePairs(p)
+		ruleShapePairs(c, p, "C07.consume", pairs, false)
+		ruleGates(c, p, pairs, "C07.consume")
+		ruleColumnShapeAs(c, p, "C07.consume")
+	}
 	c.R.Assumptions = append(c.R.Assumptions,
 		"io.ReadFull / binary.ReadUvarint / bufio return an error on every short read (standard library contract)",
 		"go-faster/errors.Wrap(nil) is non-nil (read in v0.7.1)",
